@@ -563,3 +563,15 @@ Arguments sw_operand {U}. Arguments sw_result {U}. Arguments sw_wait {U}. Argume
 Arguments sw_cats {U}. Arguments sw_default {U}. Arguments sw_noresp {U}.
 Arguments n_uuid {U}. Arguments n_actions {U}. Arguments n_ui {U}. Arguments n_kind {U}.
 Arguments st_vis {U}. Arguments st_done {U}. Arguments st_rows {U}. Arguments st_k {U}.
+Arguments opt_uuid {U}. Arguments PL {U}. Arguments PLL {U}. Arguments no_cond {U}. Arguments value_cond {U}.
+Arguments tid_eqb {U}. Arguments tid_short {U}. Arguments action_short {U}. Arguments action_fields {U}.
+Arguments case_arg0 {U}. Arguments case_arg1 {U}. Arguments short_name {U}. Arguments router_kwargs {U}.
+Arguments node_kwargs {U}. Arguments node_base_pay {U}. Arguments action_rows {U}. Arguments initiate_row_models {U}.
+Arguments last_row_id {U}. Arguments case_cond {U}. Arguments mem_u {U}. Arguments all_categories {U}.
+Arguments category_pairs {U}. Arguments switch_pairs {U}. Arguments exit_edge_pairs {U}. Arguments find_node {U}.
+Arguments prepend_edge {U}. Arguments goto_row {U}. Arguments step {U}. Arguments visit {U}. Arguments start_edge {U}.
+Arguments state0 {U}. Arguments to_rows_tmp {U}. Arguments mget {U}. Arguments mset {U}. Arguments build_map {U}.
+Arguments remap_edge {U}. Arguments remap_row {U}. Arguments idmap0 {U}. Arguments to_rows {U}. Arguments edge_cells {U}.
+Arguments edges_cells {U}. Arguments row_cells {U}. Arguments strip_cells {U}. Arguments export {U}. Arguments close_cell {U}.
+Arguments close_cells {U}. Arguments close_sheet {U}. Arguments export_strip {U}. Arguments router_ok {U}.
+Arguments node_ok {U}. Arguments flow_ok {U}.
